@@ -1048,7 +1048,9 @@ fn structured(p: &mut Prng, arch: Arch, n: usize) -> Vec<u8> {
     for _ in 0..n {
         match arch {
             Arch::X64 => {
-                let b: Vec<u8> = match p.below(14) {
+                let b: Vec<u8> = match p.below(16) {
+                    13 => vec![0x48, 0x83, 0xc4, p.next() as u8],
+                    14 => vec![0x48, 0x81, 0xc4, p.next() as u8, 0, 0, 0],
                     0 => vec![0x55],
                     1 => vec![0x48, 0x89, 0xe5],
                     2 => vec![0x50 + p.below(8) as u8],
